@@ -223,11 +223,16 @@ CLAIMED = {
          "over constants expanded and open indices accepted only in the instance position of a name) resolves, or names a form listed "
          "as deliberately absent. 'known' = the open findings of known_findings.jsonl (currently 17 lines that can reach the solver's "
          "internal assertion / an undeclared input); anything else fails the theorem. Tie: the same ASTs re-evaluate real solutions line by "
-         "line (translator validation, exact agreement). Dynamic witness search: internal exceptions leaving solve() on real-form scenarios.",
+         "line (translator validation, exact agreement). Dynamic witness search: internal exceptions leaving solve() on real-form scenarios. "
+         "Soundness of the collection against the interpreter, for EVERY line: RefsSound.waits_are_collected (mutual induction over eval/exec, any store, "
+         "any fuel) - whatever name a line can wait for (a line, RNeedV; an input, RNeedI) is qualify(s) for a string s that matches the pieces of a "
+         "reference the analysis collected from a read node of that line (literal parts as written; alternative sets read as wildcards); per year "
+         "C10_waits_collected_<year> instantiates it for every line of the regenerated catalogue (the analysis never exhausts its own fuel: checked in the kernel).",
     design_ref='DESIGN.md §4 C10',
-    note="Finite, exhaustive, decided by computation in the kernel. NOT proved: soundness of the analysis w.r.t. the interpreter (argued by "
-         "construction: every reading node of the AST is visited). Trusted: translator (validated), oracles/absent_forms.json.",
-    technique='Rocq reflective check (vm_compute) over a regenerated deep embedding + translator validation',
+    note="Finite, exhaustive, decided by computation in the kernel. Soundness of the analysis w.r.t. the interpreter is proved for the names a line can wait for "
+         "(weak matching: that a loop variable's value lies among the collected alternatives, and the threshold / form() / attribute references, are still "
+         "argued by construction). Trusted: translator (validated), oracles/absent_forms.json.",
+    technique='Rocq reflective check (vm_compute) over a regenerated deep embedding + soundness theorem of the reference collection w.r.t. the interpreter (mutual induction) + translator validation',
  ),
  'C05': dict(
     category='proof',
